@@ -20,7 +20,7 @@ static std::vector<std::string> pick_texts(const std::string &corpus, size_t wan
 static void setup(Runner &r, const Tier &t) {
     g_thor = t.thorough; g_cases.clear(); g_fonts.clear(); g_texts.clear();
     struct F { std::string font, corpus; }; std::vector<F> fs = { { "Padauk.ttf", "my_HeadwordSyllables.txt" }, { "Scheherazadegr.ttf", "udhr_arb.txt" }, { gen_dir() + "/s_full.ttf", "" } };
-    { fs.push_back({ "charis_r_gr.ttf", "udhr_yor.txt" }); fs.push_back({ "Awami_test.ttf", "awami_tests.txt" }); fs.push_back({ gen_dir() + "/s_full_rtl.ttf", "" }); fs.push_back({ "Annapurnarc2.ttf", "udhr_nep.txt" }); fs.push_back({ gen_dir() + "/s_full_le.ttf", "" }); fs.push_back({ gen_dir() + "/s_full_rtl_le.ttf", "" }); }
+    { fs.push_back({ "charis_r_gr.ttf", "udhr_yor.txt" }); fs.push_back({ "Awami_test.ttf", "awami_tests.txt" }); fs.push_back({ gen_dir() + "/s_full_rtl.ttf", "" }); fs.push_back({ "Annapurnarc2.ttf", "udhr_nep.txt" }); fs.push_back({ gen_dir() + "/s_full_le.ttf", "" }); fs.push_back({ gen_dir() + "/s_full_step.ttf", "" }); fs.push_back({ gen_dir() + "/s_full_rtl_le.ttf", "" }); }
     for (auto &f : fs) {
         g_fonts.push_back(f.font);
         if (f.corpus.empty()) g_texts.push_back({ "ab c de", "a\xCC\x81 b c\xCC\x80\xCC\x81 d", "cc ab", "ab c\xCC\x81\xCC\x80" });
@@ -78,7 +78,7 @@ static void setup(Runner &r, const Tier &t) {
             for (size_t L = 0; L < lines.size() && !failed; ++L) for (int wi = 0; wi < 6 && !failed; ++wi) for (int fl = 0; fl < 4 && !failed; ++fl) for (int sr = 0; sr < 8 && !failed; ++sr) {
                 const auto &V = lines[L]; const gr_slot *pf = nullptr, *pl = nullptr;
                 if (sr == 1) { pf = V.front(); pl = V.back(); } else if (sr == 2) { if (V.size() < 3) continue; pf = V[1]; pl = V[V.size() - 2]; } else if (sr == 3) { pf = V.back(); pl = V.back(); } else if (sr == 4) { pf = V.front(); } else if (sr == 5) { pl = V.back(); } else if (sr == 6) { pf = V.front(); pl = V.front(); } else if (sr == 7) { if (V.size() < 2) continue; pf = V[1]; }
-                float ret = gr_seg_justify(seg, V[0], font, widths[wi], gr_justFlags(fl), pf, pl); ++calls; ++step;
+                float ret; { CallGuard cg(6); ret = gr_seg_justify(seg, V[0], font, widths[wi], gr_justFlags(fl), pf, pl); } ++calls; ++step;
                 if (!std::isfinite(ret)) why = "returned width not finite";
                 if (!why.empty() || !intact(why)) {
                     const graphite2::Silf *sf = static_cast<const graphite2::Face*>(face)->chooseSilf(0); int fontdir = sf ? (sf->dir() & 1) : 0;
